@@ -114,7 +114,7 @@ def run(ctx):
             blocks = []
             for bi, f in enumerate(p['blocks'], 1):
                 blocks.append([[id_word(pi, bi, c, j) for j in range(1, f + 1)] for c in range(1, p['nch'] + 1)])
-            rp.append(dict(names=['C%02d ' % c for c in range(p['nch'])], start=start, stop=stop, spacing=spacing, blocks=blocks,
+            rp.append(dict(names=['C%02d ' % c for c in range(p['nch'])], start=start, stop=stop, spacing=spacing, blocks=blocks, unused=rng.choice([b'    ', b'    ', b'\x00\x00\x00\x00', b'\xff\xff\xff\xff', b'\x80\x01\xfe\x7f', b'OLD ']),
                            down=down))
         data = G.render(rp)
         m = dict(source=src, passes=passes, headers=[dict(start=x['start'], stop=x['stop'], spacing=x['spacing']) for x in rp])
